@@ -752,7 +752,7 @@ func R41() Rule {
 						}
 						continue
 					}
-					if isStoreCall(ci, "Get") && elementOfList(ci.Common.Args[ni]) {
+					if isStoreCall(ci, "Get") && (elementOfList(ci.Common.Args[ni]) || elementOfListThrough(ci.Common.Args[ni], binds)) {
 						// a read of one member of a list of objects (compose sources): by design not the
 						// locked object; the per-source check is R12's compose-validates-each-source
 						continue
@@ -839,6 +839,48 @@ func R41() Rule {
 			c.Unknown("R41", "floor/calls", token.NoPos, "only %d store calls found inside critical sections", n)
 		}
 	}}
+}
+
+// elementOfListThrough: v is a parameter of a helper of the section (or a field of one) that the
+// section binds to an element of a list (`g.getComposeSource(…, src)` called for each source).
+func elementOfListThrough(v ssa.Value, binds []binding) bool {
+	for i := 0; i < 6; i++ {
+		v = core.Resolve(v)
+		switch x := v.(type) {
+		case *ssa.UnOp:
+			v = x.X
+			continue
+		case *ssa.FieldAddr:
+			v = x.X
+			continue
+		case *ssa.Field:
+			v = x.X
+			continue
+		case *ssa.Alloc:
+			// the spill cell of a parameter
+			sts := core.StoresTo(x)
+			if len(sts) != 1 {
+				return false
+			}
+			v = sts[0].Val
+			continue
+		case *ssa.Parameter:
+			for _, b := range binds {
+				if b.call == nil || x.Parent() != b.callee {
+					continue
+				}
+				for pi, q := range b.callee.Params {
+					if q == x && pi < len(b.call.Call.Args) {
+						a := b.call.Call.Args[pi]
+						return elementOfList(a) || elementOfListThrough(a, binds)
+					}
+				}
+			}
+			return false
+		}
+		return false
+	}
+	return false
 }
 
 // elementOfList: v is (a field of) an element of a slice being indexed or ranged over.
